@@ -21,7 +21,9 @@ ALL = [("G06_datachecker", "tools.tr.tr_datachecker", "write"),
        ("G07_consts", "tools.tr.tr_tunnel_ep", "write"),
        ("G07_tunnel_ep", "tools.tr.tr_tunnel_ep", "write_gen"),
        ("G11_api+unload", "tools.tr.tr_lifecycle", "write"),
+       ("G11_taskmanager", "tools.tr.tr_taskmanager", "write"),
        ("G18_fp2", "tools.tr.tr_value", "write"),
+       ("G18_proofs", "tools.tr.tr_proofs", "write"),
        ("G10_reqcache", "tools.tr.tr_reqcache", "write"),
        ("G14_routing", "tools.tr.tr_routing", "write"),
        ("G16_tokentree", "tools.tr.tr_tokentree", "write")]
